@@ -201,12 +201,16 @@ Section WithParams.
          then CInvalidArgument                                         (* 793 *)
     else COk.
 
-  (* VerifyNodeUpdate api.go:1044-1105 (runtimes and roles constant) *)
-  Definition verify_node_update (cur n : node) : code :=
-    if negb (n_id cur =? n_id n) then CNodeUpdateNotAllowed
-    else if negb (n_ent cur =? n_ent n) then CNodeUpdateNotAllowed
-    else if negb (n_cons cur =? n_cons n) then CNodeUpdateNotAllowed
-    else COk.
+  (* VerifyNodeUpdate api.go:1044-1105, in the code's order: node id, entity
+     id and consensus id must not change (1054-1075); only then the early
+     return for an expired current record (1078), after which come the checks
+     for active nodes (runtimes, roles: constant in this model). *)
+  Definition verify_node_update (epoch : N) (cur n : node) : code :=
+    if negb (n_id cur =? n_id n) then CNodeUpdateNotAllowed           (* 1054 *)
+    else if negb (n_ent cur =? n_ent n) then CNodeUpdateNotAllowed    (* 1061 *)
+    else if negb (n_cons cur =? n_cons n) then CNodeUpdateNotAllowed  (* 1069 *)
+    else if n_exp cur <? epoch then COk                               (* 1078 IsExpired *)
+    else COk.                                                         (* 1082-1102 *)
 
   (* registerNode transactions.go:187-470: every check in order; COk iff the
      descriptor is stored *)
@@ -219,7 +223,7 @@ Section WithParams.
             if negb (txs =? n_id n) then CIncorrectTxSigner            (* 259 *)
             else if n_exp n <=? s_epoch s then CNodeExpired            (* 278 *)
             else match aget (n_id n) (s_nodes s) with
-                 | Some cur => verify_node_update cur n                (* 366 *)
+                 | Some cur => verify_node_update (s_epoch s) cur n    (* 366 *)
                  | None => COk
                  end
         | c => c
